@@ -33,6 +33,13 @@ theorem grpcRun_closes_sink : srcGrpcRun.all (closesFirst "Sink") = true ∧ src
     srcGrpcRun.any (fun p => p.has (.fail "Open")) = true := by
   refine ⟨by decide, by decide, by decide⟩
 
+/-- the http provider (`components/providers/http/provider`): the deferred function that closes `Sink` (and then the ammo
+file) is registered before the middlewares are initialised, the ammo is loaded or scanned -/
+theorem httpRun_closes_sink : srcHttpRun.all (closesFirst "Sink") = true ∧ srcHttpRun ≠ [] ∧
+    srcHttpRun.any (fun p => p.has (.fail "InitMiddleware")) = true ∧
+    srcHttpRun.any (fun p => p.has (.fail "loadAmmo")) = true := by
+  refine ⟨by decide, by decide, by decide, by decide⟩
+
 /-- a path that only receives from `ch` and returns what it received: no other channel, no context, no call -/
 def onlyReceives (ch : String) (p : Path) : Bool :=
   p.retText == "‹rx:" ++ ch ++ "#0›, ‹rx:" ++ ch ++ "#1›" &&
